@@ -206,6 +206,24 @@ def aggregate_states(cx, nmol, cond, limit):
     else:
         cx.prove_eq("trace", numpy.trace(data), 1)
         _psd2(cx, "psd", data)
+        # an explicitly requested T = 0 gives the zero-temperature limit (lowest level of the band
+        # the state is defined on), also when the aggregate's bath has its own temperature
+        if limit == "strong_coupling" or cond == "thermal":
+            zero = (T == 0)
+            if (cx.sym and bool(zero)) or (not cx.sym and zero):
+                start = 0 if cond == "thermal" else int(agg.Nb[0])
+                if cond == "thermal":
+                    en = [H[i, i] for i in range(N)]
+                else:
+                    en = [H[i, i] - (agg.sbi.get_reorganization_energy(i - start) if i >= start else 0.0)
+                          for i in range(N)]
+                for i in range(N):
+                    occ = (data[i, i].real != 0) if cx.sym else (abs(data[i, i]) > 1e-12)
+                    if (cx.sym and bool(occ)) or (not cx.sym and occ):
+                        cx.prove("zeroT_in_band[%d]" % i, i >= start)
+                        for j in range(start, N):
+                            cx.prove("zeroT_lowest[%d,%d]" % (i, j), en[i] <= en[j])
+                        cx.prove_eq("zeroT_pure[%d]" % i, data[i, i], 1)
 
 
 @harness("C14", "weak_coupling_basis",
